@@ -1,9 +1,128 @@
-(* C05 — property theorems.  Nothing but statements, `exact`, Print Assumptions. *)
-From G05 Require Import Routing Spec Check Proofs Obligations.
+(* C05 — property theorems.  Nothing but statements, `exact`, Print Assumptions (and one Example). *)
+From G05 Require Import Routing Spec Check Proofs PacProofs AddrProofs RouteProofs Obligations.
 
 (* direct-domains > localhost-direct > (external function > static upstream > PAC) > none:
    the proxy function composed by configureProxy computes the short spec, for every configuration,
-   every matcher / classifier / PAC oracle and every target. *)
+   every matcher / localhost classifier / PAC oracle and every target. *)
 Theorem T05_precedence : forall cfg t, proxy_for cfg t = spec_proxy cfg t.
 Proof. exact (proxy_for_is_spec ob_select_order ob_wrappers ob_localhost_const). Qed.
 Print Assumptions T05_precedence.
+
+(* The PAC result is translated by the statement's table, for EVERY return string: first entry only; empty /
+   DIRECT / unrecognised keyword = direct; PROXY,HTTP = http proxy; HTTPS = TLS proxy; SOCKS5 = socks5 proxy;
+   SOCKS,SOCKS4 (recognised, unsupported) = fail; host:port that cannot be parsed or whose port is not a port
+   number = fail; script error = fail. *)
+Theorem T05_pac_first_entry : forall r, pac_proxy r = hop_presult (spec_pac r).
+Proof. exact (pac_proxy_is_spec ob_mode_consts ob_mode_strings ob_parse_mode_arms ob_parse_mode_default
+               ob_parse_proxy_shape ob_parse_proxy_validates_port ob_first_shape ob_url_shape ob_pac_unsupported). Qed.
+Print Assumptions T05_pac_first_entry.
+
+(* --connect-to: the redirect is "first matching rule" (find), for every rule list and every address ... *)
+Theorem T05_connect_to_first_match : forall rules addr, dial_redirect rules addr = spec_redirect rules addr.
+Proof. exact dial_redirect_is_spec. Qed.
+Print Assumptions T05_connect_to_first_match.
+
+(* ... where matching means "empty = any", the target means "empty = unchanged", a matching head rule decides,
+   a non-matching one is skipped, no rule or an unparsable address = identity. *)
+Theorem T05_connect_to_meaning : forall r rules h p,
+  (rule_matches r h p = true <->
+     (src_host r = [] \/ src_host r = h) /\ (src_port r = [] \/ src_port r = p)) /\
+  rule_target r h p = join_host_port (match dst_host r with [] => h | x => x end)
+                                     (match dst_port r with [] => p | x => x end) /\
+  (has_byte 58 h = false -> has_byte 91 h = false -> has_byte 93 h = false ->
+   has_byte 58 p = false -> has_byte 91 p = false -> has_byte 93 p = false ->
+   dial_redirect [] (join_host_port h p) = join_host_port h p /\
+   (rule_matches r h p = true -> dial_redirect (r :: rules) (join_host_port h p) = rule_target r h p) /\
+   (rule_matches r h p = false ->
+    dial_redirect (r :: rules) (join_host_port h p) = dial_redirect rules (join_host_port h p))) /\
+  (forall addr, split_host_port addr = None -> dial_redirect rules addr = addr).
+Proof. exact (fun r rules h p => conj (rule_matches_meaning r h p) (conj (rule_target_meaning r h p)
+               (conj (redirect_first_match r rules h p) (redirect_unparsable rules)))). Qed.
+Print Assumptions T05_connect_to_meaning.
+
+(* Main refinement: for both paths (CONNECT through martian's connect, plain requests through the Transport as
+   modelled) the party the connection is opened to, whether TLS is spoken to it and what it is used as are
+   exactly the spec's — for every configuration whose non-PAC upstreams are well formed (cfg_wf: what
+   config.go validates), every PAC oracle and return string, every rule list, every target. *)
+Theorem T05_route_is_spec : forall cfg rules t, cfg_wf cfg -> route cfg rules t = spec_route cfg rules t.
+Proof. exact (route_is_spec (proj1 ob_connect_switch) (proj2 ob_tls_scheme)
+               (conj (proj1 ob_shared_functions) (proj1 (proj2 ob_shared_functions)))
+               T05_precedence T05_pac_first_entry). Qed.
+Print Assumptions T05_route_is_spec.
+
+(* The hop chosen for a plain request and for a CONNECT to the same host is the same, or both fail. *)
+Theorem T05_http_connect_agree : forall cfg rules tp tc,
+  cfg_wf cfg -> t_kind tp = Plain -> t_kind tc = Connect -> t_scheme tp = b "http" ->
+  spec_target_addr tp = spec_target_addr tc ->
+  hostname tp = hostname tc ->
+  (forall f, c_upfunc cfg = Some f -> f tp = f tc) ->
+  (forall p, c_pac cfg = Some p -> p tp = p tc) ->
+  first_hop (route cfg rules tp) = first_hop (route cfg rules tc).
+Proof. exact (fun cfg rules tp tc Hwf Kp Kc Sp Ha Hh Hf Hp =>
+               http_connect_agree (proj1 ob_connect_switch) (proj2 ob_tls_scheme)
+                 (conj (proj1 ob_shared_functions) (proj1 (proj2 ob_shared_functions)))
+                 T05_precedence T05_pac_first_entry cfg rules tp tc Hwf Kp Kc Sp Ha
+                 (spec_hop_by_hostname cfg tp tc Hh Hf Hp)). Qed.
+Print Assumptions T05_http_connect_agree.
+
+(* A recognised but unsupported PAC type fails the request on both paths (nothing is dialled) ... *)
+Theorem T05_unsupported_fails : forall cfg rules t p s kw rest,
+  c_upfunc cfg = None -> c_upstream cfg = None -> c_pac cfg = Some p ->
+  direct_domain cfg (hostname t) = false -> localhost_direct cfg (hostname t) = false ->
+  p t = PacOk s -> (kw = b "SOCKS" \/ kw = b "SOCKS4") -> first_entry s = kw ++ 32 :: rest ->
+  route cfg rules t = OFail.
+Proof. exact (unsupported_fails (proj1 ob_connect_switch) (proj2 ob_tls_scheme)
+               (conj (proj1 ob_shared_functions) (proj1 (proj2 ob_shared_functions)))
+               T05_precedence T05_pac_first_entry). Qed.
+Print Assumptions T05_unsupported_fails.
+
+(* ... and so does everything else the spec calls a failure (script error, unparsable entry). *)
+Theorem T05_fail_on_both_paths : forall cfg rules t,
+  cfg_wf cfg -> spec_hop cfg t = HFail -> route cfg rules t = OFail.
+Proof. exact (fail_on_both_paths (proj1 ob_connect_switch) (proj2 ob_tls_scheme)
+               (conj (proj1 ob_shared_functions) (proj1 (proj2 ob_shared_functions)))
+               T05_precedence T05_pac_first_entry). Qed.
+Print Assumptions T05_fail_on_both_paths.
+
+(* One exchange contacts one party: every dial attempt (retries included) and the single use of the
+   connection go to the address the connect-to rules map the selected hop to; a failed selection dials nothing. *)
+Theorem T05_single_recipient : forall cfg rules t attempts failures,
+  cfg_wf cfg ->
+  match spec_route cfg rules t with
+  | OFail => exchange cfg rules t attempts failures = []
+  | OSent a tls w =>
+      (forall e, In e (exchange cfg rules t attempts failures) -> event_addr e = a) /\
+      (exists n, (1 <= n)%nat /\
+         (exchange cfg rules t attempts failures = repeat (EvDial a) n ++ [EvUse a tls w] \/
+          exchange cfg rules t attempts failures = repeat (EvDial a) n))
+  end.
+Proof. exact (single_recipient (proj1 ob_connect_switch) (proj2 ob_tls_scheme)
+               (conj (proj1 ob_shared_functions) (proj1 (proj2 ob_shared_functions)))
+               T05_precedence T05_pac_first_entry). Qed.
+Print Assumptions T05_single_recipient.
+
+(* Every proxy type the PAC parser knows is DIRECT, supported by both consumers, or rejected (generic form of
+   the repair of finding F6: it also covers a type added to parseMode later). *)
+Theorem T05_every_pac_type_accounted : forallb mode_accounted mode_consts = true.
+Proof. exact ob_every_mode_accounted. Qed.
+Print Assumptions T05_every_pac_type_accounted.
+
+(* Non-vacuity: a concrete configuration (RouteProofs.ex_cfg: PAC script, direct-domains list, localhost mode
+   "direct", connect-to list ex_rules) meeting the hypotheses; the interesting outcomes are computed. *)
+Example T05_example :
+  cfg_wf ex_cfg /\
+  route ex_cfg ex_rules (tgt 0 (b "http") (b "origin.test")) = OSent (b "10.0.0.9:8443") true WAbs /\
+  route ex_cfg ex_rules (tgt 1 [] (b "origin.test:80")) = OSent (b "10.0.0.9:8443") true WConnect /\
+  route ex_cfg ex_rules (tgt 0 (b "http") (b "intra.test")) = OSent (b "sink.test:80") false WDirect /\
+  route ex_cfg ex_rules (tgt 1 [] (b "localhost:443")) = OSent (b "sink.test:443") false WDirect /\
+  route ex_cfg ex_rules (tgt 0 (b "http") (b "bad.test")) = OFail /\
+  route ex_cfg ex_rules (tgt 1 [] (b "bad.test:80")) = OFail.
+Proof. exact (conj (cfg_wf_no_static ex_cfg eq_refl eq_refl)
+                   (conj eq_refl (conj eq_refl (conj eq_refl (conj eq_refl (conj eq_refl eq_refl)))))). Qed.
+
+(* the hypothesis cfg_wf is met by every static upstream config.go accepts *)
+Example T05_example_static :
+  cfg_wf ex_cfg_static /\
+  route ex_cfg_static [] (tgt 1 [] (b "origin.test:443")) = OSent (b "pa.test:1080") false WSocks.
+Proof. exact (conj (cfg_wf_static ex_cfg_static (b "socks5") (b "pa.test") (b "1080") eq_refl eq_refl
+                      socks5_supported eq_refl eq_refl eq_refl) eq_refl). Qed.
